@@ -819,6 +819,10 @@ func checkBigValues(c *vm.Ctx, r *vm.Rand) {
 		B []int32  `nbt:"b"`
 		C []int64  `nbt:"c"`
 		L []string `nbt:"l"`
+		D []uint32 `nbt:"d"`
+		E []uint64 `nbt:"e"`
+		H []int16  `nbt:"h"`
+		I []uint16 `nbt:"i"`
 		X any      `nbt:"x"`
 		Z string   `nbt:"z"`
 	}
@@ -842,6 +846,13 @@ func checkBigValues(c *vm.Ctx, r *vm.Rand) {
 		}
 		for i := range v.L {
 			v.L[i] = fmt.Sprint(i)
+		}
+		// the element loops exist once per element kind: unsigned and machine-sized ones too
+		// (plain int / uint are not among the kinds the encoder takes)
+		v.D, v.E, v.H, v.I = make([]uint32, n), make([]uint64, n), make([]int16, n), make([]uint16, n)
+		for i := 0; i < n; i++ {
+			x := r.Uint64()
+			v.D[i], v.E[i], v.H[i], v.I[i] = uint32(x), x, int16(x), uint16(x)
 		}
 		rv := reflect.New(reflect.TypeOf(v)).Elem()
 		rv.Set(reflect.ValueOf(v))
